@@ -799,6 +799,15 @@ fn main() {
     let mut drv = Driver::spawn(&args.driver);
     let mut w = rt.block_on(World::new());
     let run = |w: &mut World, drv: &mut Driver, rep: &mut Report, kind: &str, evs: Vec<Ev>| {
+        // every person is a member of the built-in dynamic groups, whose entries grow with each
+        // account: start from a fresh server now and then to keep the cost per history flat
+        if w.next_acct >= 300 {
+            let (case_no, pw_no) = (w.case_no, w.pw_no);
+            *w = rt.block_on(World::new());
+            w.case_no = case_no;
+            w.pw_no = pw_no;
+            rep.count("fresh-server");
+        }
         let out = rt.block_on(exec_case(w, drv, kind, &evs));
         for c in &out.counts {
             rep.count(c);
